@@ -13,5 +13,7 @@ rm -f $V/coq/extract/*.vo $V/coq/extract/*.glob $V/coq/extract/.*.aux $V/coq/ext
 cp $V/driver/driver.ml .
 ocamlfind ocamldep -sort *.ml *.mli > order.txt 2>/dev/null
 FILES=$(ocamlfind ocamldep -sort $(ls *.mli *.ml | grep -v '^driver.ml$'))
-ocamlfind ocamlopt -O2 -w -a -rectypes -thread -package coq-core.kernel -linkpkg $FILES driver.ml -o driver > build.log 2>&1 || \
-ocamlfind ocamlopt -w -a -rectypes -thread -package coq-core.kernel -linkpkg $FILES driver.ml -o driver > build.log 2>&1 || { cat build.log; exit 1; }
+ocamlfind ocamlopt -O2 -w -a -rectypes -thread -package coq-core.kernel -linkpkg $FILES driver.ml -o driver.new > build.log 2>&1 || \
+ocamlfind ocamlopt -w -a -rectypes -thread -package coq-core.kernel -linkpkg $FILES driver.ml -o driver.new > build.log 2>&1 || { cat build.log; exit 1; }
+# atomic replacement: a check that is running the previous driver keeps its inode
+mv -f driver.new driver
